@@ -54,6 +54,7 @@ namespace c14
         bool strict = false; // a container member function is running
         bool loose = false;  // no regions: every Tracked object anywhere is on the ledger (heap arrays)
         long throw_in = -1;  // >= 0: that many more Tracked constructions inside a member function succeed, the next one throws
+        long throw_asg_in = -1; // >= 0: that many more Tracked move-assignments inside a member function succeed, the next one throws
 
         void reset()
         {
@@ -65,7 +66,11 @@ namespace c14
             strict = false;
             loose = false;
             throw_in = -1;
+            throw_asg_in = -1;
         }
+        // called first thing by Tracked::operator=(Tracked&&): an assignment that
+        // throws has changed neither side
+        void tick_asg();
         // called first thing by every Tracked constructor: a constructor that
         // throws has constructed nothing and touched nothing
         void tick();
@@ -254,6 +259,18 @@ namespace c14
         throw_in--;
     }
 
+    inline void Ledger::tick_asg()
+    {
+        if (!strict || throw_asg_in < 0)
+            return;
+        if (throw_asg_in == 0)
+        {
+            throw_asg_in = -1;
+            throw Thrown{};
+        }
+        throw_asg_in--;
+    }
+
     struct Tracked
     {
         int v;
@@ -284,6 +301,7 @@ namespace c14
         }
         Tracked &operator=(Tracked &&o)
         {
+            L().tick_asg();
             L().on_moved(&o);
             L().on_assign(this);
             int nv = o.v, nm = o.moved;
@@ -375,7 +393,12 @@ namespace c14
     {
         virtual ~IMachine() {}
         virtual void op(const std::vector<std::string> &w, hv::out &o) = 0;
+        // 8 * sizeof(m_size) of the instantiation (read with -fno-access-control), 0 = not applicable
+        virtual int width() { return 0; }
     };
+
+    // does a counter of w bits hold every size 0..N?
+    inline bool counter_fits(int w, size_t N) { return w >= 64 || (N >> w) == 0; }
 
     inline std::vector<int> ints_from(const std::vector<std::string> &w, size_t from)
     {
@@ -427,6 +450,7 @@ namespace c14
 
         bool has(int r) { return r >= 0 && r < K && regs[r].v; }
         bool empty_reg(int r) { return r >= 0 && r < K && !regs[r].v; }
+        int width() override { return 8 * (int)sizeof(Vec::m_size); }
 
         void *place(int r)
         {
@@ -554,9 +578,40 @@ namespace c14
 
         void op(const std::vector<std::string> &w0, hv::out &o) override
         {
+            if (w0[0] == "width")
+            {
+                // what the compiled code contains: the width of the counter, the number of slots of _data
+                int w = width();
+                size_t slots = 0;
+                if constexpr (N > 0) slots = sizeof(Vec::_data) / sizeof(typename std::remove_extent<decltype(Vec::_data)>::type);
+                o.result = "w=" + std::to_string(w) + " slots=" + std::to_string(slots);
+                o.tag(("w" + std::to_string(w)).c_str());
+                if (!counter_fits(w, N))
+                    o.fail("m_size has " + std::to_string(w) + " bits: it cannot hold the sizes 0.." + std::to_string(N));
+                if (slots != N) o.fail("_data has " + std::to_string(slots) + " slots, N=" + std::to_string(N));
+                if constexpr (N > 0)
+                    if (sizeof(typename std::remove_extent<decltype(Vec::_data)>::type) < sizeof(T)) o.fail("a slot is smaller than T");
+                return;
+            }
             // `thr k <op>`: the (k+1)-th element construction inside <op> throws
+            // `thra a erase r i j`: the (a+1)-th element move-assignment inside erase throws
             std::vector<std::string> wbuf;
-            long thr = -1;
+            long thr = -1, thra = -1;
+            if (w0[0] == "thra")
+            {
+                if (w0.size() < 3)
+                {
+                    o.result = "bad-op";
+                    return;
+                }
+                if (!ET::trk || port || w0[2] != "erase")
+                {
+                    o.result = "bad";
+                    return;
+                }
+                thra = atol(w0[1].c_str());
+                wbuf.assign(w0.begin() + 2, w0.end());
+            }
             if (w0[0] == "thr")
             {
                 if (w0.size() < 3)
@@ -572,13 +627,14 @@ namespace c14
                 thr = atol(w0[1].c_str());
                 wbuf.assign(w0.begin() + 2, w0.end());
             }
-            const std::vector<std::string> &w = thr >= 0 ? wbuf : w0;
+            const std::vector<std::string> &w = (thr >= 0 || thra >= 0) ? wbuf : w0;
             const std::string &c = w[0];
             auto R = [&](size_t i) { return i < w.size() ? atoi(w[i].c_str()) : -1; };
             int r = R(1), s = R(2);
             bool bad = false, thrown = false;
             L().events.clear();
             L().throw_in = thr;
+            L().throw_asg_in = thra;
             try
             {
             if (c == "new")
@@ -615,7 +671,7 @@ namespace c14
                     }
                 }
             }
-            else if (c == "range" || c == "il")
+            else if (c == "range" || c == "il" || c == "rangev" || c == "ranges")
             {
                 if constexpr (port)
                     bad = true;
@@ -645,6 +701,30 @@ namespace c14
                         }
                         void *m = place(r);
                         preregister(r, m);
+                        if (c == "rangev")
+                        {
+                            // iterators of a (longer) std::vector
+                            std::vector<T> sv((const T *)src, (const T *)src + xs.size());
+                            { Strict _g;
+                            regs[r].v = new (m) Vec(sv.cbegin(), sv.cend());
+                            }
+                            o.tag("range-std-vector");
+                        }
+                        else if (c == "ranges" && N > 8)
+                            bad = true; // instantiated for the small capacities only
+                        else if (c == "ranges")
+                        {
+                            // begin()/end() of another static_vector with a larger capacity
+                            using Big = typename Twin::template vec<T, (N <= 8 ? 2 * N + 2 : 1)>;
+                            std::unique_ptr<Big> big(new Big((const T *)src, (const T *)src + xs.size()));
+                            if (big->size() != std::min(xs.size(), 2 * N + 2)) o.fail("source static_vector<T,2N+2> size");
+                            { Strict _g;
+                            regs[r].v = new (m) Vec(((const Big &)*big).begin(), ((const Big &)*big).end());
+                            }
+                            if (xs.size() > 2 * N + 2) xs.resize(2 * N + 2);
+                            o.tag("range-bigger-static-vector");
+                        }
+                        else
                         { Strict _g;
                         if (c == "range")
                             regs[r].v = new (m) Vec((const T *)src, (const T *)src + xs.size());
@@ -771,6 +851,63 @@ namespace c14
                     return;
                 }
             }
+            else if (c == "wat" || c == "wfront" || c == "wback")
+            {
+                // writes through the reference / pointer / iterator an accessor hands out
+                size_t sz = has(r) ? regs[r].ref.size() : 0;
+                long idx = c == "wat" ? s : c == "wfront" ? 0 : (long)sz - 1;
+                int x = c == "wat" ? R(3) : R(2);
+                int via = c == "wat" && w.size() > 4 ? R(4) : 0;
+                if (!has(r) || sz == 0 || idx < 0 || (size_t)idx >= sz) bad = true;
+                else
+                {
+                    Vec &v = *regs[r].v;
+                    size_t i = (size_t)idx;
+                    T tmp = ET::make(x);
+                    { Strict _g;
+                    if (c == "wfront") v.front() = tmp;
+                    else if (c == "wback") v.back() = tmp;
+                    else if (via == 1) v.data()[i] = tmp;
+                    else if (via == 2) *(v.begin() + i) = tmp;
+                    else v[i] = tmp;
+                    }
+                    regs[r].ref[i] = {x, false};
+                    o.tag(c == "wat" ? "write-index" : "write-front-back");
+                    if (i + 1 == N) o.tag("write-last-slot");
+                }
+            }
+            else if (c == "wfill")
+            {
+                if (!has(r)) bad = true;
+                else
+                {
+                    int x = R(2);
+                    T tmp = ET::make(x);
+                    size_t n = 0;
+                    { Strict _g;
+                    for (auto &e : *regs[r].v) { e = tmp; n++; }
+                    }
+                    if (n != regs[r].ref.size()) o.fail("range-for visited " + std::to_string(n) + " elements, size is " + std::to_string(regs[r].ref.size()));
+                    for (auto &e : regs[r].ref) e = {x, false};
+                    o.tag("write-range-for");
+                }
+            }
+            else if (c == "take")
+            {
+                // T y = std::move(v[i]): the element stays alive, moved-from
+                if (!has(r) || s < 0 || (size_t)s >= regs[r].ref.size()) bad = true;
+                else
+                {
+                    RE got;
+                    {
+                        T y(std::move((*regs[r].v)[(size_t)s]));
+                        got = ET::get(y);
+                    }
+                    if (!(got == regs[r].ref[(size_t)s])) o.fail("moved-out element is " + show(got) + " expected " + show(regs[r].ref[(size_t)s]));
+                    if (ET::trk) regs[r].ref[(size_t)s].moved = true;
+                    o.tag("move-out-of-element");
+                }
+            }
             else if (c == "clear")
             {
                 if (!has(r)) bad = true;
@@ -814,13 +951,28 @@ namespace c14
                 thrown = true;
             }
             L().throw_in = -1;
+            L().throw_asg_in = -1;
             if (bad)
             {
                 o.result = "bad";
                 L().events.clear();
                 return;
             }
-            if (thrown)
+            if (thrown && thra >= 0)
+            {
+                // erase(begin()+i, begin()+j) left by its (a+1)-th assignment: nothing destroyed, the size
+                // unchanged; [i,i+a) hold what was at [j,j+a), the sources not overwritten are moved-from
+                o.tag("threw");
+                o.tag("erase-assign-threw");
+                size_t i = (size_t)R(2), j = (size_t)R(3), a = (size_t)thra;
+                std::vector<RE> old = regs[r].ref;
+                for (size_t p = 0; p < old.size(); p++)
+                {
+                    if (p >= i && p < i + a) regs[r].ref[p] = old[p + (j - i)];
+                    else if (p >= j && p < j + a) regs[r].ref[p].moved = true;
+                }
+            }
+            else if (thrown)
                 after_throw(w, (size_t)thr, o);
             // ---- observe + oracle
             std::string st;
@@ -898,7 +1050,7 @@ namespace c14
                 if ((size_t)(L().ctors - L().dtors) != total)
                     o.fail("ledger: " + std::to_string(L().ctors - L().dtors) + " live elements, sizes sum to " + std::to_string(total));
                 o.result = st + " | " + L().take_events() + " | " + std::to_string(L().ctors - L().dtors);
-                if (thr >= 0)
+                if (thr >= 0 || thra >= 0)
                     o.result += thrown ? " | threw" : " | done";
             }
             else
@@ -923,6 +1075,7 @@ namespace c14
         SMachine(int k, bool c) : K(k), canary(c), regs(k) {}
         bool has(int r) { return r >= 0 && r < K && regs[r].s; }
         bool empty_reg(int r) { return r >= 0 && r < K && !regs[r].s; }
+        int width() override { return 8 * (int)sizeof(Str::m_size); }
         void *place(int r)
         {
             regs[r].place.reset(new Place(canary, sizeof(Str)));
@@ -983,6 +1136,38 @@ namespace c14
             int r = R(1);
             bool bad = false;
             std::string res = "-";
+            if (c == "width")
+            {
+                int wd = width();
+                size_t bytes;
+                if constexpr (port) bytes = sizeof(Str::_data); else bytes = sizeof(Str::data);
+                o.result = "w=" + std::to_string(wd) + " bytes=" + std::to_string(bytes);
+                o.tag(("w" + std::to_string(wd)).c_str());
+                if (!counter_fits(wd, N))
+                    o.fail("m_size has " + std::to_string(wd) + " bits: it cannot hold the sizes 0.." + std::to_string(N));
+                if (bytes != N + 1) o.fail("data has " + std::to_string(bytes) + " bytes, N+1=" + std::to_string(N + 1));
+                return;
+            }
+            if (c == "sgetany")
+            {
+                // operator[] at any position <= N (the terminator slot included) is inside data[N+1];
+                // the byte is compared below size() only
+                int i = R(2);
+                if (!has(r) || i < 0 || (size_t)i > N) { o.result = "bad"; return; }
+                char ch = (*regs[r].s)[(size_t)i];
+                const Str &cs = *regs[r].s;
+                if (cs[(size_t)i] != ch) o.fail("const operator[] disagrees");
+                if ((size_t)i < regs[r].ref.size())
+                {
+                    uint8_t b = (uint8_t)ch;
+                    o.result = hv::hex(&b, 1);
+                    if (ch != regs[r].ref[(size_t)i]) o.fail("operator[]");
+                }
+                else
+                    o.result = "in";
+                if ((size_t)i == N) o.tag("index-terminator-slot");
+                return;
+            }
             if (c == "snew")
             {
                 if (!empty_reg(r)) bad = true;
@@ -1084,6 +1269,50 @@ namespace c14
                 if (!has(r) || i < 0 || (size_t)i >= regs[r].ref.size() || ch < 0) bad = true;
                 else { (*regs[r].s)[(size_t)i] = (char)ch; regs[r].ref[(size_t)i] = (char)ch; }
             }
+            else if (c == "ssetv")
+            {
+                // the same write through begin() (k = 1) / data() (k = 2, std_portable.h only)
+                int i = R(2), ch = B(3), k = R(4);
+                if (!has(r) || i < 0 || (size_t)i >= regs[r].ref.size() || ch < 0) bad = true;
+                else
+                {
+                    if (k == 2)
+                    {
+                        if constexpr (port) regs[r].s->data()[(size_t)i] = (char)ch;
+                        else *(regs[r].s->begin() + i) = (char)ch;
+                    }
+                    else
+                        *(regs[r].s->begin() + i) = (char)ch;
+                    regs[r].ref[(size_t)i] = (char)ch;
+                    o.tag("write-iterator");
+                }
+            }
+            else if (c == "sstoi")
+            {
+                // stoi / stol / stoll / stod(static_string): read through c_str() (terminator inside the
+                // object also at size() == N); judged against glibc on the reference string
+                if constexpr (!port) bad = true;
+                else
+                {
+                    if (!has(r)) bad = true;
+                    else
+                    {
+                        const Str &cs = *regs[r].s;
+                        std::string ref0 = regs[r].ref.substr(0, strlen(regs[r].ref.c_str()));
+                        long want = strtol(ref0.c_str(), nullptr, 10);
+                        int a = Twin::stoi_(cs);
+                        long b = Twin::stol_(cs);
+                        long long c2 = Twin::stoll_(cs);
+                        double d = Twin::stod_(cs);
+                        if (a != (int)want || b != want || c2 != (long long)want)
+                            o.fail("stoi/stol/stoll of '" + ref0 + "' = " + std::to_string(a) + "/" + std::to_string(b) + "/" + std::to_string(c2) + " expected " + std::to_string(want));
+                        // igris_atof32 computes in binary32: integers below 2^24 are exact (its accuracy is another property's subject)
+                        if (want > -16777216 && want < 16777216 && d != (double)want) o.fail("stod of '" + ref0 + "' = " + std::to_string(d));
+                        res = "num";
+                        if (regs[r].ref.size() == N) o.tag("stoi-full");
+                    }
+                }
+            }
             else if (c == "sdel")
             {
                 if (!has(r)) bad = true;
@@ -1144,6 +1373,34 @@ namespace c14
         }
     };
 
+    // ---------------------------------------------------------------- before main()
+    // A few operations run from the constructor of a static object with
+    // init_priority(101) (before the harness's own statics): the classes must
+    // not depend on anything that is initialised later.  The text is stored in
+    // a zero-initialised buffer and reported by the op `premain`.
+    template <class Twin> void premain_probe(char *out, size_t cap)
+    {
+        typename Twin::template vec<int, 3> v;
+        for (int i = 1; i <= 4; i++) v.push_back(i);
+        typename Twin::template vec<int, 3> w(v);
+        v.resize(1);
+        typename Twin::template str<3> s("abcdef");
+        s.push_back('x');
+        std::string t;
+        auto showv = [&](auto &x) {
+            t += std::to_string(x.size()) + "/" + std::to_string(x.room()) + "[";
+            for (size_t i = 0; i < x.size() && i < 3; i++) t += (i ? "," : "") + std::to_string(x[i]);
+            t += "]";
+        };
+        showv(v);
+        t += " ";
+        showv(w);
+        t += " " + std::to_string(s.size()) + ":" + std::string(s.c_str());
+        snprintf(out, cap, "%s", t.c_str());
+    }
+    const char *premain_c();
+    const char *premain_p();
+
 #define C14_V(n) if (N == n) return trk ? (IMachine *)new VMachine<Twin, Tracked, n>(K, canary) : (IMachine *)new VMachine<Twin, int, n>(K, canary);
 #define C14_VT(n) if (N == n && trk) return new VMachine<Twin, Tracked, n>(K, canary);
 #define C14_VI(n) if (N == n && !trk) return new VMachine<Twin, int, n>(K, canary);
@@ -1157,17 +1414,17 @@ namespace c14
     template <class Twin> IMachine *make_small_trk(bool str, bool trk, size_t N, int K, bool canary)
     {
         if (str) return nullptr;
-        C14_VT(1) C14_VT(2) C14_VT(3) C14_VT(8)
+        C14_VT(0) C14_VT(1) C14_VT(2) C14_VT(3) C14_VT(8)
         return nullptr;
     }
     template <class Twin> IMachine *make_small_rest(bool str, bool trk, size_t N, int K, bool canary)
     {
         if (str)
         {
-            C14_S(1) C14_S(2) C14_S(3) C14_S(8)
+            C14_S(0) C14_S(1) C14_S(2) C14_S(3) C14_S(8)
             return nullptr;
         }
-        C14_VI(1) C14_VI(2) C14_VI(3) C14_VI(8)
+        C14_VI(0) C14_VI(1) C14_VI(2) C14_VI(3) C14_VI(8)
         return nullptr;
     }
     template <class Twin> IMachine *make_big_trk(bool str, bool trk, size_t N, int K, bool canary)
@@ -1180,7 +1437,7 @@ namespace c14
     {
         if (str)
         {
-            C14_S(127) C14_S(128) C14_S(255) C14_S(256) C14_S(257) C14_S(65535) C14_S(65536) C14_S(65537)
+            C14_S(127) C14_S(128) C14_S(255) C14_S(256) C14_S(257) C14_S(65535) C14_S(65536) C14_S(65537) C14_S(307200)
             return nullptr;
         }
         C14_VI(65535) C14_VI(65536) C14_VI(65537)
